@@ -28,7 +28,23 @@ static void op_nt_mxp_crt(int argc, char **argv) {
 	crt_free(crt);
 }
 
+/* nt_mxp_few <c0> <m> <a0> <b0> <a1> <b1> ... : bn_mxp_sim_few(c, a, b, m, n) with c holding c0 before the call (n = 0 leaves c untouched);
+ * up to 9 pairs are accepted so that the n > 8 refusal can be presented */
+static void op_nt_mxp_few(int argc, char **argv) {
+	if (argc < 3 || ((argc - 3) & 1) || (argc - 3) / 2 > 9) { fprintf(OUT, "bad-args\n"); return; }
+	size_t n = (size_t)(argc - 3) / 2;
+	bn_t a[10], b[10], c, m; int caught = 0;
+	NEW(c); NEW(m);
+	for (size_t i = 0; i < 10; i++) { NEW(a[i]); NEW(b[i]); }
+	tok_bn(c, argv[1]); tok_bn(m, argv[2]);
+	for (size_t i = 0; i < n; i++) { tok_bn(a[i], argv[3 + 2 * i]); tok_bn(b[i], argv[4 + 2 * i]); }
+	RLC_TRY { bn_mxp_sim_few(c, (const bn_t *)a, (const bn_t *)b, m, n); } RLC_CATCH_ANY { caught = 1; }
+	if (take_err() || caught) fprintf(OUT, "err"); else bn_out(c);
+	fputc('\n', OUT);
+}
+
 const op_t ops_nt_mxp[] = {
+	{"nt_mxp_few", op_nt_mxp_few},
 	{"nt_mxp_crt", op_nt_mxp_crt},
 	{NULL, NULL}
 };
